@@ -92,6 +92,54 @@ def judge(chk, res, man):
     return "preserved"
 
 
+def big_ufo(path, n):
+    """A static UFO with n trivial glyphs (the compiler adds .notdef)."""
+    import plistlib
+    os.makedirs(os.path.join(path, "glyphs"), exist_ok=True)
+    plistlib.dump({"creator": "verif", "formatVersion": 3}, open(os.path.join(path, "metainfo.plist"), "wb"))
+    plistlib.dump({"familyName": "Big", "styleName": "Regular", "unitsPerEm": 1000, "ascender": 800, "descender": -200}, open(os.path.join(path, "fontinfo.plist"), "wb"))
+    plistlib.dump([["public.default", "glyphs"]], open(os.path.join(path, "layercontents.plist"), "wb"))
+    plistlib.dump({}, open(os.path.join(path, "lib.plist"), "wb"))
+    contents = {}
+    for i in range(n):
+        name = f"g{i:05d}"
+        contents[name] = name + ".glif"
+        with open(os.path.join(path, "glyphs", name + ".glif"), "w") as f:
+            f.write(f'<?xml version="1.0" encoding="UTF-8"?>\n<glyph name="{name}" format="2">\n  <advance width="500"/>\n  <outline>\n    <contour>\n'
+                    f'      <point x="0" y="0" type="line"/>\n      <point x="100" y="0" type="line"/>\n      <point x="50" y="{100 + i % 50}" type="line"/>\n'
+                    '    </contour>\n  </outline>\n</glyph>\n')
+    plistlib.dump(contents, open(os.path.join(path, "glyphs", "contents.plist"), "wb"))
+    return path
+
+
+def glyph_count_probes(chk, bins, tally):
+    """More glyphs than a font can number (65 536 with .notdef) must be refused; thorough tier, release profile only
+    (a debug build needs tens of minutes for 65k glyphs)."""
+    from . import c05
+    for n, accept in ((65535, "reject"), (60000, "must")):
+        src = big_ufo(os.path.join(chk.scratch, f"big{n}", f"Big-{n}.ufo"), n)
+        wd = os.path.join(chk.scratch, f"big{n}", "out")
+        r, out, cmd = compile_font(bins["fontc"], src, wd, name="rel", threads=16, timeout=3000, cpu_s=3000)
+        outcome = classify(r, out)
+        chk.coverage["evaluations"] += 1
+        key = f"glyph-count:{n + 1}:{outcome}"
+        tally[key] = tally.get(key, 0) + 1
+        replay = {"cmd": cmd, "glyphs_incl_notdef": n + 1}
+        if outcome == "watchdog":
+            chk.inconc({"why": "glyph-count probe watchdog", "n": n})
+        elif outcome.startswith("signal") or outcome == "exit 0 without font":
+            chk.violation(f"c19:glyph-count:{outcome.split()[0]}", f"{n + 1} glyphs: {outcome}: {r.stderr[-200:]}", replay=replay)
+        elif outcome == "font" and accept == "reject":
+            chk.violation("c19:glyph-count:beyond-limit:font-emitted", f"a source with {n + 1} glyphs (incl. .notdef) compiled to a font", replay=replay, files=[out])
+        elif outcome == "font":
+            rep = c05.oracle(bins["voracle"], [out]).get(out, {})
+            if rep.get("num_glyphs") != n + 1 or rep.get("errors"):
+                chk.violation("c19:glyph-count:within-limit:not-preserved", f"{n + 1} glyphs: font has {rep.get('num_glyphs')} glyphs, walker errors {rep.get('errors', [])[:2]}", replay=replay, files=[out])
+        elif accept == "must":
+            chk.violation("c19:glyph-count:within-limit:rejected", f"a source with {n + 1} glyphs was refused: {r.stderr[-200:]}", replay=replay)
+        shutil.rmtree(os.path.join(chk.scratch, f"big{n}"), ignore_errors=True)
+
+
 def run(tier):
     chk = Check("C19", tier)
     bins = common.build("rel", ("fontc", "voracle"))
@@ -113,6 +161,8 @@ def run(tier):
         if len(samples) < 4 and b.get("beyond"):
             samples.append({"source": os.path.basename(os.path.dirname(res["source"])), "boundary": b, "release": res["rel"], "debug": res["dbg"], "verdict": verdict})
         shutil.rmtree(res["wd"], ignore_errors=True)
+    if tier == "thorough":
+        glyph_count_probes(chk, bins, tally)
     chk.coverage.update({"distinct_nontrivial": nontrivial, "rule": RULE, "samples": samples, "c19_outcomes_by_kind": dict(sorted(tally.items()))})
     chk.assumptions += ["agreement = both profiles fail or both succeed with identical bytes (an error in one and a panic in the other both count as failing)",
                         "a value within the limit must be accepted and read back; a value beyond it must be rejected or the shape preserved; values whose "
